@@ -27,7 +27,7 @@ DEFAULT = dict(
                                    'touch'],
     p_refuse_step=0.0, n_muts=(1, 3), p_q_near_output=0.5, p_plant=0.0, p_double_clean=0.0,
     p_plain_build=0.0, p_swap_groups=0.0, p_fail_after_nested=0.0,
-    p_switch_root=0.3, p_anc_target=0.0,
+    p_switch_root=0.3, p_anc_target=0.0, p_stepargs=0.0,
 )
 
 # JSON values for arguments / return values / versions (C07, C16)
@@ -48,10 +48,32 @@ def ancestors(rel):
     return ['/'.join(parts[:i]) for i in range(1, len(parts))]
 
 
+# families of values that are easy to confuse: members of one inner list
+# are JSON-equal, different inner lists of a family are near misses
+CONFUSABLE = [
+    [[1, 1.0], [True], ['1']],
+    [[0, -0.0, 0.0], [False], [None], ['']],
+    [[[1, 2], {'__tuple__': [1, 2]}], [[2, 1]], [[1, 2, None]]],
+    [[{'a': None}], [{'b': None}], [{}], [{'a': None, 'b': None}]],
+    [[{'1': 'x'}, {'__dict__': [[1, 'x']]}], [{'__dict__': [[True, 'x']]}],
+     [{'__dict__': [[1.0, 'x']]}]],
+    [[{'a': 1, 'b': 2}, {'b': 2, 'a': 1}], [{'a': 2, 'b': 1}]],
+    [[[]], [{}], [None], [''], [[[]]]],
+    [[2 ** 53, 2.0 ** 53], [2 ** 53 + 1]],
+    [[{'a': [1, {'b': None}]}], [{'a': [1, {'b': 0}]}], [{'a': [1, {}]}]],
+    [[[True]], [[1]]],
+    [[{'k': {'__tuple__': [1]}}, {'k': [1]}], [{'k': [1.5]}]],
+    [['\u00e9'], ['e\u0301']],
+]
+
 REFUSALS = [
     'trunc0', 'trunc1', 'trunc10', 'truncmid', 'trunclast', 'flip-header',
     'flip-body', 'flip-trailer', 'gz-nonjson', 'gz-list', 'gz-other-software',
     'gz-newer-version', 'gz-missing-keys', 'not-gzip', 'dir-at-cache',
+    'gz-drop:createdDirs', 'gz-drop:rootOperations', 'gz-drop:buildName',
+    'gz-drop:funcVersions', 'gz-drop:operationVersions',
+    'gz-drop:cacheFileVersion', 'gz-drop:software', 'clean-gz-drop',
+    'gz-null', 'gz-string',
     'wrong-name', 'name-not-str', 'func-not-callable', 'versions-not-dict',
     'versions-not-json', 'clean-wrong-name', 'clean-name-not-str',
     'clean-trunc', 'clean-not-gzip', 'cache-path-bad-type',
@@ -116,8 +138,25 @@ class Gen:
             v = {'k': v}
         return v
 
+    def step_value(self):
+        """A value that changes from build to build within one family."""
+        rng = self.rng
+        fam = rng.choice(CONFUSABLE)
+        alts = []
+        for _ in range(rng.randint(2, 3)):
+            alts.append(rng.choice(rng.choice(fam)))
+        return {'__step__': alts}
+
     def small_args(self):
         rng = self.rng
+        if self.chance('p_stepargs'):
+            v = self.step_value()
+            r = rng.random()
+            if r < 0.4:
+                return [v], {}
+            if r < 0.7:
+                return [], {'k': v}
+            return [[v, 1]], {}
         if self.p['args_pool'] == 'rich':
             args = [self.rich_value() for _ in range(rng.randint(0, 2))]
             kwargs = {}
@@ -374,7 +413,9 @@ class Gen:
         if self.chance('p_version_change'):
             names = sorted(f['name'] for f in funcs.values())
             name = rng.choice(names)
-            v[name] = rng.choice([1, 2, 'v', None, [1], {'a': 1}, 1.0, True])
+            v[name] = rng.choice([1, 2, 'v', None, [1], {'a': 1}, 1.0, True,
+                                  0, False, '', [], {}, 0.0, [None],
+                                  {'a': None}, 2 ** 60, '\u00e9', -1])
             if v[name] is None and rng.random() < 0.5:
                 v.pop(name)
         return v
